@@ -202,8 +202,11 @@ CLAIMED = {
     ),
     'C15': dict(
         text='(a) regions_to_bits_rep / regions_bits_rep_to_regions verified with 64-bit-vector loop invariants (bit b set iff some selected region has id b+1; decode returns exactly the sub-sequence of set regions) and a z3 lemma composing the two contracts into the round trip; '
-        '(b) BatchFormatVersion.db_spec followed by each get_spec_* reader executed symbolically on the real code for every format version 2..7 and all 32 key-presence shapes of a spec (list lengths and contents symbolic): the readers return the original secrets, service account, file flags and machine spec.',
-        note=COMMON_NOTE + 'Preconditions: region ids unique in [1,63], selected regions are keys of the mapping; job specs have the validator\'s shape; version 1 is the identity. (b) is whole-composition symbolic execution (writer result fed to the reader), not a modular proof.',
+        '(b) BatchFormatVersion.db_spec followed by each get_spec_* reader executed symbolically on the real code for every format version 2..7 and all 32 key-presence shapes of a spec (list lengths and contents symbolic): the readers return the original secrets, service account, file flags and machine spec; '
+        '(c) the sites the round trip of a stored job depends on: front_end._create_jobs (fragments of the real per-job loop body, stale values of the loop variables symbolic): the bits / count stored for a job are the encoding of THAT job\'s regions (NULL without regions), unknown or empty selections are rejected before the encoder (its precondition is discharged at the call), the appended jobs row and the INSERT column list carry them in fields 10/11; '
+        'job_private.create_instances_loop_body: the coroutine handed to the pool decodes the spec / bits of ITS record parameter (symbolic execution of the nested coroutine) and has no free variable rebound by the enclosing loops (closure analysis on the AST); '
+        'table regions: AUTO_INCREMENT key + UNIQUE name, and no embedded statement or stored routine replaces, deletes or updates an existing row (vc/sqlparse over batch/batch/**/*.py and the routines), each driver registers its regions with INSERT ... ON DUPLICATE KEY UPDATE region = region.',
+        note=COMMON_NOTE + 'Preconditions: region ids unique in [1,63] (selected regions being keys of the mapping is now discharged at the call site); job specs have the validator\'s shape; version 1 is the identity. (b) is whole-composition symbolic execution (writer result fed to the reader), not a modular proof. (c) cuts the encoder / decoder / reader calls at uninterpreted functions; the late-binding clause is a syntactic closure analysis plus a replay; the mapping is read once per process start.',
         technique='loop-invariant contracts (bit-vectors) + symbolic composition of real writer and readers, pyvc -> z3',
         design_ref='7/C15',
     ),
